@@ -40,12 +40,19 @@ def upstream(p, rng, x, depth, shape=None):
             x = identity_step(p, rng, x, shape)
             continue
         k = rng.random()
-        if k < 0.4:
+        if k < 0.35:
             x = p.bind('scale %s %s' % (x, f2b(rng.choice([0.5, 1.0, 0.75]))))
-        elif k < 0.7:
+        elif k < 0.5:
             y = p.bind('scale %s %s' % (x, f2b(0.5)))
             x = p.bind('add %s %s' % (x, y))       # fan-out of x
             x = p.bind('scale %s %s' % (x, f2b(2.0 / 3.0)))
+        elif k < 0.75:
+            # a residual step whose RESULT is what the component consumes: x + f(x) in either operand order (the order decides
+            # which contribution reaches x first in the walk), f(x) = c*x with 0 < 1 + c <= 1 so that values in (0, 1) stay there;
+            # the Add hands its gradient on to both operands unchanged, so x, f(x) and the result must not share gradient state
+            y = p.bind('scale %s %s' % (x, f2b(rng.choice([-0.25, -0.5, -0.125]))))
+            x = p.bind('add %s %s' % ((y, x) if rng.random() < 0.6 else (x, y)))
+            p.tag('residual-step')
         else:
             x = p.bind('mul %s %s' % (x, p.bind('pow %s %s' % (x, f2b(0.0)))))
     return x
